@@ -77,6 +77,7 @@ func loadContracts(P *Program, trusted []string, overlay map[string][]byte) (*Co
 	cs := newContractSet()
 	cs.Ghosts["held"] = &GhostDecl{Name: "held", Type: "map[ptr]bool", Src: "builtin"}
 	cs.Ghosts["closed"] = &GhostDecl{Name: "closed", Type: "map[ptr]bool", Src: "builtin"}
+	cs.Ghosts["onceDone"] = &GhostDecl{Name: "onceDone", Type: "map[ptr]bool", Src: "builtin"}
 	cs.Ghosts["select"] = &GhostDecl{Name: "select", Type: "mathint", Src: "builtin"}
 	var files []string
 	tdir := filepath.Join(verifRoot, "contracts", "trusted")
